@@ -620,6 +620,35 @@ TARGETS.append(dict(
           "  if !P0f.validTcp pk.ip.isFragment pk.tcp.type then none else some (P0f.fingerprintTcp db (P0f.pktSigOfPkt pk syn_mss) (pk.tcp.type == F_SYN) maxDist)\n",
 ))
 
+# ---------------------------------------------------------------------------------------------- C08: the MTU search and glue
+TARGETS.append(dict(
+    module="pyp0f.fingerprint.mtu", func="find_mtu_match", file="FindMtuMatch", lean="findMtuMatch", import_="P0f.Model.Mtu", open="P0f",
+    pyparams=["packet_signature", "database"], params=[("recs", "List (Nat × Nat)"), ("mtu", "Nat")],
+    ret="Opt:Tuple:Nat,Nat", lean_ret="Option (Nat × Nat)",
+    # a record is (its MTU, its position): the position stands for the record's identity
+    env={"packet_signature": ("mtu", "Rec:MtuSig")},
+    records={"MtuRec": {"signature": (".1", "Rec:MtuSig")}, "MtuSig": {"mtu": ("{}", "Nat")}}, lean_types={"Rec:MtuRec": "Nat × Nat", "Rec:MtuSig": "Nat"},
+    calls={"database.iter_values": bound(["MTURecord"], ("recs", "List:Rec:MtuRec"))},
+    alias="def findMtuMatch (recs : List (Nat × Nat)) (mtu : Nat) : Option (Nat × Nat) := recs.find? (fun r => r.1 == mtu)\n",
+))
+TARGETS.append(dict(
+    module="pyp0f.fingerprint.mtu", func="fingerprint_mtu", file="FingerprintMtu", lean="fingerprintMtu",
+    import_="P0f.Generated.Logic.FindMtuMatch\nimport P0f.Generated.Logic.ValidMtu\nimport P0f.Generated.Logic.MtuFromMss\nimport P0f.Model.Api", open="P0f",
+    pyparams=["packet", "options"], params=[("recs", "List (Nat × Nat)"), ("pk", "PktL")],
+    ret="Opt:Tuple:Nat,Opt:Tuple:Nat,Nat", lean_ret="Option (Nat × Option (Nat × Nat))", pre=_drop_parse_packet,
+    env={"packet": ("pk", "Rec:PktL")}, raises={"PacketError": "none"},
+    calls={"valid_for_mtu_fingerprint": bound(["packet"], ("(P0f.Gen.validMtu pk.ip.isFragment pk.tcp.type pk.tcp.opts.mss)", "Bool")),
+           # MTUPacketSignature.from_packet(packet) = cls.from_mss(packet.tcp.options.mss, packet.ip.version): the printed from_mss on this packet's fields
+           "MTUPacketSignature.from_packet": lambda fn, a, k, e: fn.raising("((P0f.Gen.mtuFromMss pk.tcp.opts.mss pk.ip.version).map Int.toNat)", "Nat")
+           if [ast.unparse(x) for x in a] == ["packet"] and not k else (_ for _ in ()).throw(NotTranslatable("from_packet call shape")),
+           "find_mtu_match": lambda fn, a, k, e: ("(P0f.Gen.findMtuMatch recs " + par(fn.coerce(a[0], e, "Nat")) + ")", "Opt:Tuple:Nat,Nat")
+           if len(a) == 2 and not k and ast.unparse(a[1]) == "options.database" else (_ for _ in ()).throw(NotTranslatable("find_mtu_match call shape")),
+           "MTUResult": lambda fn, a, k, e: ("(" + fn.coerce(a[1], e, "Nat") + ", " + fn.expr(a[2], e)[0] + ")", "Tuple:Nat,Opt:Tuple:Nat,Nat")
+           if len(a) == 3 and not k and ast.unparse(a[0]) == "packet" else (_ for _ in ()).throw(NotTranslatable("MTUResult call shape"))},
+    alias="def fingerprintMtu (recs : List (Nat × Nat)) (pk : PktL) : Option (Nat × Option (Nat × Nat)) :=\n"
+          "  if !P0f.validMtu pk.ip.isFragment pk.tcp.type pk.tcp.opts.mss then none else some (pk.tcp.opts.mss + P0f.mtuHdr pk.ip.version, recs.find? (fun r => r.1 == pk.tcp.opts.mss + P0f.mtuHdr pk.ip.version))\n",
+))
+
 # ---------------------------------------------------------------------------------------------- C09 / C10: signature text parsers
 RAISES_FIELD = {"FieldError": "none", "ValueError": "none"}
 TARGETS.append(dict(
